@@ -9,14 +9,16 @@ from ..cfg import CFG
 MANIFEST = {
     'technique': 'well-formedness rules for the three eviction statements (iterable typing, no mutation under a live dict iterator, store-before-evict), memo==result on '
             'miss and hit paths, writer/reader schema agreement for the (index, kind) cache entries, no-mutation rule for handed-out index lists, who-may-write the '
-            'name table; key-determines-fill rule for the registry of shared lookup dicts',
+            'name table; key-determines-fill rule for the registry of shared lookup dicts; order-signature rule for the parallel per-name tables of define_group; '
+            'memo invalidation after a redefinition',
     'text': 'Decides for every lookup history: the eviction code of the three bounded lookup caches can only delete keys, terminates and cannot raise (iterates an '
             'iterable, never advances a dict iterator after deleting from the dict), runs after the new entry is stored; what a miss stores is what it returns and '
             'what a later hit returns; every writer of an (index, kind) entry uses kind 0 only for an integer index; no caller mutates an index list handed out by '
             'the lookup functions; the name table is written only by compile / set_alias (guarded) / define_group; the registry key of the shared per-indexer '
             'lookup dict contains, for every self.F.p its fillers read, self.F itself or a prefix of that path (a projection such as the ID tuple lets packages '
-            'with different groups share one dict), and the dict is re-selected after F changes. That each alias resolves to one position at run time is not '
-            'decided.',
+            "with different groups share one dict), and the dict is re-selected after F changes. In define_group every per-name table reaches the caller's IDs / "
+            "composition through the same order-changing operations, and after the name table is written the chemicals' lookup memo and the multi-phase indexers' "
+            'memos are cleared on every path. That each alias resolves to one position at run time is not decided.',
 }
 
 CH = 'thermosteam/_chemicals.py'
